@@ -121,13 +121,13 @@ theorem expandItem_noMac (ms : List MacroDef) :
         rw [List.mem_singleton.1 hx]
         refine NoMac.disj ?_
         intro alt halt y hy
-        obtain ⟨a, ha, hfa⟩ := List.mem_map.1 (collectEager_ok_mem halts' halt)
+        obtain ⟨a, ha, hfa⟩ := mapLazy_ok_mem halts' halt
         split at hfa
         · cases hfa
         · rename_i inner hinner
           rw [flattenP_ok hfa] at hy
           obtain ⟨l, hl, hyl⟩ := List.mem_flatten.1 hy
-          obtain ⟨z, hz, hfz⟩ := List.mem_map.1 (collectEager_ok_mem hinner hl)
+          obtain ⟨z, hz, hfz⟩ := mapLazy_ok_mem hinner hl
           exact ih _ _ _ _ hfz y hyl
     | mac name args =>
       rw [expandItem] at h
